@@ -12,7 +12,7 @@ func vAbs(x int64) int64 { return vIte(x < 0, -x, x) }
 
 // VerifC05Trim: trimming hides entries but never changes the numbers of those shown.
 func VerifC05Trim() {
-	si := vC04Shapes[vChoice("shape", vBound("c05.shapes", len(vC04Shapes)))]
+	si := vC05Shapes[vChoice("shape", vBound("c05.shapes", len(vC05Shapes)))]
 	shape := vShapes[si]
 	vp := vBuildA(shape, 1, vNames, vFiles, true)
 	for _, s := range vp.p.Sample {
@@ -126,6 +126,9 @@ func VerifC05Trim() {
 	proj := map[[2]int]*pe{}
 	for s := range shape {
 		w := vp.p.Sample[s].Value[0]
+		if w == 0 {
+			continue // a sample without weight takes no part in the graph
+		}
 		ids, _ := vFrames(shape, s)
 		prev := -1
 		skipped := false
